@@ -261,3 +261,78 @@ func Harness_C09_TwoMatches() {
 	}
 	verifCover("end")
 }
+
+// the matched value's type is not known when the match is parsed (a lambda
+// parameter without annotation; inference resolves it to the union later).
+// fc as it stands refuses such matches outright; whatever it does, a match
+// that omits a case and has no default arm must never be accepted.  (Nothing
+// is claimed here about the accepting direction.)
+func Harness_C09_UntypedTarget() {
+	n := 1 + verifChoice("cases", c09MaxCases())
+	k := 1 + verifChoice("arms", n+1)
+	var arms []c09Arm
+	covered := make([]bool, n)
+	for j := 0; j < k; j++ {
+		c := verifChoice("arm"+itoaV(j), n)
+		form := 0
+		if c09Payload(c, 0) != "" {
+			form = 1 + verifChoice("form"+itoaV(j), 2)
+		}
+		arms = append(arms, c09Arm{byte('0' + c), form})
+		covered[c] = true
+	}
+	deflt := verifChoice("default", 2) == 1
+	ctx := verifChoice("ctx", 2)
+	src := "package main\n\npackage_info slice =\n  let Map<T, U> : (T->U)->[]T->[]U\n\ntype U =\n"
+	for i := 0; i < n; i++ {
+		src += "  | Kase" + itoaV(i) + c09Payload(i, 0) + "\n"
+	}
+	tail := ""
+	if ctx == 0 {
+		src += "\nlet f (us:[]U) =\n  slice.Map (fun u ->\n    match u with\n"
+		tail = ") us\n"
+	} else {
+		src += "\nlet ap (g:U->int) (v:U) = g v\n\nlet f (w:U) =\n  ap (fun u ->\n    match u with\n"
+		tail = ") w\n"
+	}
+	var lines []string
+	for j, a := range arms {
+		l := "    | Kase" + string([]byte{a.digit})
+		switch a.form {
+		case 1:
+			l += " _"
+		case 2:
+			l += " x" + itoaV(j)
+		}
+		lines = append(lines, l+" -> "+itoaV(j+1))
+	}
+	if deflt {
+		lines = append(lines, "    | _ -> 0")
+	}
+	for j, l := range lines {
+		src += l
+		if j == len(lines)-1 {
+			src += tail
+		} else {
+			src += "\n"
+		}
+	}
+	verifSetFile("t.fo", src)
+	verifSetArgs([]string{"fc", "t.fo"})
+	code := verifRunMain(main)
+	cover := true
+	for _, c := range covered {
+		if !c {
+			cover = false
+		}
+	}
+	if !deflt && !cover {
+		verifAssert(code != 0, "a match on a not-yet-typed value that omits a case and has no default arm is rejected")
+		verifAssert(verifNumWrites() == 0, "no output file for a rejected program")
+		verifCover("rejected")
+	} else if code == 0 {
+		gen, _ := verifFile("gen_t.go")
+		verifAssert((indexOf(gen, "Never reached here", 0) >= 0) == !deflt, "the never-reached fallback is emitted exactly when there is no default arm")
+	}
+	verifCover("end")
+}
